@@ -18,8 +18,8 @@ def opt_s(v):
 
 def run(ctx):
     import logging
-    logging.getLogger("deep").setLevel(logging.CRITICAL + 1)
-    logging.getLogger().setLevel(logging.CRITICAL + 1)
+    from ..lib.quiet import quiet_logging
+    quiet_logging()
     from deep.api.tracepoint.trigger import LocationAction, Trigger, LineLocation, Location
     from deep.api.tracepoint.tracepoint_config import MetricDefinition, LabelExpression
     ctx.rule = ("1-4 metric definitions (type in COUNTER/GAUGE/HISTOGRAM/SUMMARY, upper/lower/mixed case; 0-3 labels with "
